@@ -355,26 +355,29 @@ fn expand(
             }
         }
 
-        // Ensure replacements are sorted. They probably are, but may as well make sure.
-        replacements.sort_by_key(|r| r.insert_index);
-        // Must replace last-first to keep unreplaced insertion points stable.
-        // perf_2 : could construct vec in one pass.
-        for replacement in replacements.iter().rev() {
-            let (before, after) = exprs.split_at(replacement.insert_index);
-            let after = after.iter().skip(1); // first element is `(template-expand ...)`
-            let new_vec = before
-                .iter()
-                .cloned()
-                .chain(replacement.exprs.iter().cloned())
-                .chain(after.cloned())
-                .collect();
-            *exprs = new_vec;
-        }
-
         if replacements.is_empty() {
             break;
         }
-        replacements.clear();
+        // Ensure replacements are sorted. They probably are, but may as well make sure.
+        replacements.sort_by_key(|r| r.insert_index);
+        // Construct the new vec in one pass, moving the items.
+        // Rebuilding the whole vec with clones once per replacement made the load time
+        // quadratic in the number of expansions within one list.
+        let mut pending = replacements.drain(..).peekable();
+        let old_exprs = std::mem::take(exprs);
+        let mut new_vec = Vec::with_capacity(old_exprs.len());
+        for (index, expr) in old_exprs.into_iter().enumerate() {
+            match pending.peek() {
+                Some(replacement) if replacement.insert_index == index => {
+                    // `expr` is the `(template-expand ...)` being replaced.
+                    let replacement = pending.next().expect("peeked");
+                    new_vec.extend(replacement.exprs);
+                }
+                _ => new_vec.push(expr),
+            }
+        }
+        drop(pending);
+        *exprs = new_vec;
         // Whatever the next pass finds was produced by the expansions of this pass.
         limits.depth += 1;
     }
